@@ -554,6 +554,15 @@ impl<T: Smp> Slot<T> {
                 untouched = false;
             }
         }
+        // 2: frames reported as written that still hold the pre-fill (the call returned a count it did not produce)
+        let mut uflag = untouched as u8;
+        if untouched && res.is_ok() {
+            for (c, v) in wave_out.iter().enumerate() {
+                if active(c) && v[..written.min(v.len())].iter().any(|x| x.bits() == sent) {
+                    uflag = 2;
+                }
+            }
+        }
         let data = if res.is_ok() {
             data_section(&wave_out, written, &active, o.dump)
         } else {
@@ -566,7 +575,7 @@ impl<T: Smp> Slot<T> {
             delta.0,
             delta.1,
             delta.2,
-            untouched as u8,
+            uflag,
             data
         )
     }
